@@ -21,7 +21,7 @@ func init() {
 		Level: "exploration",
 		Rule: "producer runs: an HSM stub behind NewSigner(ES*, crypto.Signer) returns ASN.1 for tape-chosen (r, s) from the boundary classes (1, 2 or many leading zero bytes in r and/or s, r or s equal to 1 or n-1, random) - the buggify idiom: a dependency doing something legal and rare - or mangled ASN.1 (bad DER, trailing bytes, negative, oversize); " +
 			"the native-key path is driven with a seeded entropy stream searched until r or s has a leading zero byte. Output must be I2OSP(r, n) || I2OSP(s, n) of length twice the curve-order size, both paths byte-compatible, and real signatures from both paths must verify under go-cose and the reference. " +
-			"consumer runs: a format-translating middlebox presents DER, zero-stripped, zero-extended, off-length (0..2n+4) and bit-flipped variants of valid signatures, and random strings; the verifier may return nil only for the exact fixed-width form of a valid (r, s), everything else must be ErrVerification. " +
+			"consumer runs: a format-translating middlebox presents DER, zero-stripped, zero-extended, off-length (0..2n+4) and bit-flipped variants of valid signatures, exact-length signatures with an all-zero half or a half equal to the group order, and random strings; a panic of the verifier is a violation; the verifier may return nil only for the exact fixed-width form of a valid (r, s), everything else must be ErrVerification. " +
 			"Non-trivial = an output or verdict was judged; distinct = distinct (curve, algorithm, (r,s) class or variant, outcome).",
 		Assumptions: []string{"Go crypto/ecdsa and math/big are correct", "RFC 9053 section 2.1 as transcribed in refcose.ECDSASigBytes"},
 		Real:        []string{"github.com/veraison/go-cose (ecdsa.go, signer.go, verifier.go)", "Go crypto/ecdsa"},
